@@ -148,8 +148,10 @@ class Evaluator:
         self.max_steps = max_steps
 
     # ------------------------------------------------------------------ statements
-    def run(self, body: List[ast.stmt], env: Dict[str, object]) -> Frame:
+    def run(self, body: List[ast.stmt], env: Dict[str, object], attrs: Optional[Dict[str, object]] = None) -> Frame:
         f = Frame(env)
+        if attrs:
+            f.attrs.update(attrs)
         self.block(body, f)
         return f
 
@@ -586,6 +588,21 @@ class Evaluator:
                 return self.ev(fn.value, f)
             if m == "to":
                 return self.ev(fn.value, f)
+            if m in ("update", "setdefault", "get", "pop") and not e.keywords:
+                recv = self.ev(fn.value, f)
+                if isinstance(recv, dict):
+                    a = A()
+                    if m == "update" and len(a) == 1 and isinstance(a[0], dict):
+                        recv.update(a[0])
+                        return None
+                    if m == "setdefault" and len(a) == 2 and _concrete(a[0]) and not isinstance(a[0], (list, dict)):
+                        return recv.setdefault(a[0], a[1])
+                    if m == "get" and 1 <= len(a) <= 2 and _concrete(a[0]) and not isinstance(a[0], (list, dict)):
+                        return recv.get(a[0], a[1] if len(a) == 2 else None)
+                    if m == "pop" and 1 <= len(a) <= 2 and _concrete(a[0]) and not isinstance(a[0], (list, dict)):
+                        if a[0] in recv or len(a) == 2:
+                            return recv.pop(a[0], a[1] if len(a) == 2 else None)
+                    raise NotEval(f"dict.{m} with these arguments")
             if m in ("isdisjoint", "issubset", "issuperset", "intersection", "union", "difference") and len(e.args) == 1 and not e.keywords:
                 recv = self.ev(fn.value, f)
                 arg = self.ev(e.args[0], f)
